@@ -20,8 +20,8 @@ CLAIMS = {
   note="Trusts: application handlers return non-nil responses (documented contract); go/ssa lowering; the reference FSM table transcribed from RFC 2326 A.1 plus the library's documented relaxations.",
   ref="3 C02"),
  "C06": dict(
-  technique="SSA path queries over packet literals (sequence counter pairing), header-field provenance, input-alias taint",
-  text="Decides for all 15 packetizers, on every path: each packet literal takes its sequence number from the counter and the counter is incremented exactly once per packet; header fields come from the configuration; Init seeds the counter; no store / copy / append writes through a value aliasing Encode's input. Does not decide the numeric payload-size bound or marker placement.",
+  technique="SSA path queries over packet literals (sequence counter pairing), header-field provenance, input-alias taint, exact linear identities over the SSA form of the fragmenting loops (ceiling-division budget), parameter-to-marker data dependence",
+  text="Decides for all 15 packetizers, on every path: each packet literal takes its sequence number from the counter and the counter is incremented exactly once per packet; header fields come from the configuration; Init seeds the counter; no store / copy / append writes through a value aliasing Encode's input; for the seven fragmenting encoders built on the ceiling-division helper, that no fragment payload exceeds PayloadMaxSize (six linear identities read off the loop); that the flag telling a batch writer whether its batch ends the frame reaches the marker of every packet it builds. Does not decide the size bound on the aggregation paths or in the other eight encoders, nor marker placement as a function of frame content.",
   note="Trusts: pion payloaders (VP8/VP9) do not write their input; static payload-type table from RFC 3551.",
   ref="3 C06"),
  "C09": dict(
